@@ -7,6 +7,7 @@
 From Coq Require Import ZArith List Bool.
 From Cicada Require Import Model.Jobs Model.Term Proofs.TermProofs Proofs.JobsSpec Proofs.JobsInv Proofs.TermSim.
 From Cicada Require Import Model.WaitTerm Proofs.WaitTermProofs.
+From Cicada Require Model.WaitFg Proofs.WaitFgJobs.
 Import ListNotations.
 Local Open Scope Z_scope.
 
@@ -469,6 +470,19 @@ Theorem C07_wait_o_echild_is_jobs_blocked : forall c gid pids v rest ow m g evs 
     shl (k s') = w_sh (Jobs.wait_loop evs (shl kk) gid pids (last pids 0) (length pids) w status).
 Proof. exact wait_o_echild_is_blocked. Qed.
 
+(** The third transcription, [Model.WaitFg.wait_loop] (C02's, over raw (pid, kind, val)
+    triples, tied in-process by C02's harness): on the encoded statuses ([WaitFgJobs.enc]) it
+    returns the same cmd_result.status and leaves the same statuses as [Jobs.wait_loop], from
+    any settled set / status, when no member has pid 0 (the [is_exited] quirk). So
+    Term.settle = wait_o = Jobs.wait_loop = WaitFg.wait_loop on status and consumption. *)
+Theorem C07_waitfg_is_jobs_wait_loop : forall pids pl cc gid, ~ In 0 pids ->
+  forall evs s status settled consumed side,
+  WaitFg.r_status (WaitFg.wait_loop pids pl cc (map WaitFgJobs.enc evs) status settled consumed side) =
+    Jobs.w_status (Jobs.wait_loop evs s gid pids pl cc settled status) /\
+  WaitFg.r_left (WaitFg.wait_loop pids pl cc (map WaitFgJobs.enc evs) status settled consumed side) =
+    map WaitFgJobs.enc (Jobs.w_left (Jobs.wait_loop evs s gid pids pl cc settled status)).
+Proof. exact WaitFgJobs.waitfg_is_jobs. Qed.
+
 Print Assumptions C07_prompt_owner.
 Print Assumptions C07_owner_cases.
 Print Assumptions C07_bg_never_owner.
@@ -490,3 +504,4 @@ Print Assumptions C07_settle_returns_settled.
 Print Assumptions C07_wait_o_is_jobs_wait_loop.
 Print Assumptions C07_wait_fg_o_is_jobs_wait_fg_job.
 Print Assumptions C07_wait_o_echild_is_jobs_blocked.
+Print Assumptions C07_waitfg_is_jobs_wait_loop.
